@@ -66,6 +66,29 @@ CLASSES = {0: "zst", 1: "u8", 2: "u64", 3: "[u8;4096]", 4: "align64", 5: "Box<[u
            # spawned thread, in the middle of the thread's epilogue — the panic handler then starts from there
            13: "struct with Drop that panics", 14: "struct with Drop that panics on a spawned thread only"}
 BOMBS = (13, 14)
+# WHERE the closure panics (script token `panic_<site>`): "" a plain panic!; "e" / "o" / "d" inside an argument of tiny-std's
+# eprintln! / println! / dbg! — the thread then holds the library's stderr / stdout print lock while its panic handler runs;
+# "m" while holding guards of a tiny_std::sync::Mutex and RwLock of its own.  The property is the same for all of them: the
+# thread exits, join returns None, everything but the closure is released.
+SITES = {"": "plain panic!", "e": "inside an eprintln! argument (stderr print lock held)", "o": "inside a println! argument (stdout print lock held)",
+         "d": "inside a dbg! argument (stderr print lock held)", "m": "holding guards of its own Mutex and RwLock"}
+# a thread that dies inside a print macro never releases that print lock (nothing unwinds), so the next thread that prints to the
+# same stream would block before it panics: one per lock per probe process
+LOCK_OF = {"e": "stderr", "d": "stderr", "o": "stdout"}
+
+
+def one_per_print_lock(batches):
+    """keep at most one panic_e/panic_d and one panic_o thread per script (= per probe process); the others panic plainly"""
+    used = set()
+    for specs in batches:
+        for sp in specs:
+            lk = LOCK_OF.get(sp.get("site", ""))
+            if sp["panic"] and lk:
+                if lk in used:
+                    sp["site"] = ""
+                else:
+                    used.add(lk)
+    return batches
 NCLASS = len(CLASSES)
 
 
@@ -676,6 +699,16 @@ def judge_batch(bno, specs, insts, problems, stats, heap_before, heap_live, tb, 
     """the property, evaluated on what the implementation did. -> list of (kind, why)"""
     bad = list(problems)
     if tb is None:
+        # the process did not survive the batch (killed by the watchdog or by a signal): what was seen until then still counts
+        for sp in specs:
+            inst = insts[sp["id"]]
+            if inst.hung:
+                bad.append(("hang", "%s of id %d did not return within the watchdog (%s); thread created: %s; closure: %s" % (
+                    sp["action"], sp["id"], inst.hung, inst.tid is not None,
+                    ("panics " + SITES[sp.get("site", "")]) if sp["panic"] else "returns")))
+            elif timed_out and inst.tid is not None and inst.t_exit is None and (inst.t_end is not None or inst.t_panic is not None):
+                bad.append(("thread-leak", "the thread of id %d (closure %s) had not exited when the watchdog ended the run" % (
+                    sp["id"], ("panics " + SITES[sp.get("site", "")]) if sp["panic"] else "returns")))
         return bad + [("probe", "no text record for batch %d" % bno)]
     leaked_expect = []
     for sp in specs:
@@ -684,8 +717,8 @@ def judge_batch(bno, specs, insts, problems, stats, heap_before, heap_live, tb, 
         st = tb["spawn"].get(iid)
         failed_call = inst.mmap_fail or inst.clone_fail
         if inst.hung:
-            bad.append(("hang", "%s of id %d did not return within the watchdog (%s); thread created: %s" % (
-                sp["action"], iid, inst.hung, inst.tid is not None)))
+            bad.append(("hang", "%s of id %d did not return within the watchdog (%s); thread created: %s; closure: %s" % (
+                sp["action"], iid, inst.hung, inst.tid is not None, ("panics " + SITES[sp.get("site", "")]) if sp["panic"] else "returns")))
             continue
         if st is None:
             if not timed_out:
@@ -831,7 +864,9 @@ def gen_batch(r, nmax):
             d, d2 = r.choice([1000, 3000]), 0
         # half of the threads return one of the niche classes; panics are as frequent there as anywhere
         cls = r.below(6) if r.chance(1, 2) else r.range(6, NCLASS - 1)
-        specs.append({"id": iid, "panic": r.chance(1, 4) if cls < 6 else r.chance(1, 2), "d": d, "class": cls, "action": act, "d2": d2})
+        pan = r.chance(1, 4) if cls < 6 else r.chance(1, 2)
+        specs.append({"id": iid, "panic": pan, "d": d, "class": cls, "action": act, "d2": d2,
+                      "site": (r.choice(["", "", "", "m", "e", "o", "d"]) if pan else "")})
     return specs
 
 
@@ -839,7 +874,8 @@ def script_of(batches):
     out = []
     for specs in batches:
         for sp in specs:
-            out.append("t %d %s %d %d %s %d" % (sp["id"], "panic" if sp["panic"] else "ret", sp["d"], sp["class"], sp["action"], sp["d2"]))
+            verb = ("panic_" + sp["site"] if sp.get("site") else "panic") if sp["panic"] else "ret"
+            out.append("t %d %s %d %d %s %d" % (sp["id"], verb, sp["d"], sp["class"], sp["action"], sp["d2"]))
         out.append("go")
     return "\n".join(out) + "\n"
 
@@ -998,13 +1034,32 @@ def destructor_sweep(r, rounds):
     return out
 
 
+def panic_site_sweep(r, rounds):
+    """scripts (one probe process each) in which a closure panics while its thread holds one of the library's own locks: inside an
+    eprintln! / println! / dbg! argument, or holding its own Mutex / RwLock guards — joined, dropped at once, dropped later, alone and
+    followed (same process) by ordinary returning and panicking threads, whose panic handler / join must not be affected either"""
+    jobs = []
+    for k in range(rounds):
+        for site in ("e", "o", "d", "m"):
+            for act, d, d2 in (("join", 0, 0), ("join", 1000, 0), ("dropnow", 300, 0), ("drop", 0, 1000)):
+                ids = r.shuffle(list(range(64)))
+                first = [{"id": ids[0], "panic": True, "site": site, "d": d, "class": r.choice([0, 2, 3, 5, 12, 14]), "action": act, "d2": d2}]
+                if r.chance(1, 2):
+                    first.append({"id": ids[1], "panic": False, "site": "", "d": r.choice(DELAYS), "class": r.choice([0, 2, 5]), "action": "join", "d2": 0})
+                # afterwards, in the same process: a plain panic and a return, joined (the dead thread may still own a print lock)
+                second = [{"id": ids[2], "panic": True, "site": r.choice(["", "m"]), "d": 0, "class": 2, "action": "join", "d2": 300},
+                          {"id": ids[3], "panic": False, "site": "", "d": 0, "class": r.choice([2, 14]), "action": r.choice(["join", "dropnow"]), "d2": 0}]
+                jobs.append(one_per_print_lock([first, second]))
+    return jobs
+
+
 def run_scenarios(ctx, exe, cfg, nproc, batches_per_proc, nmax, label, jobs=None):
     """runs nproc probe processes of batches_per_proc batches each; returns list of (result item, script)"""
     r = ctx.rng
     if jobs is None:
         jobs = []
         for _ in range(nproc):
-            bs = [gen_batch(r, nmax) for _ in range(batches_per_proc)]
+            bs = one_per_print_lock([gen_batch(r, nmax) for _ in range(batches_per_proc)])
             jobs.append(bs)
 
     def work(bs):
@@ -1043,7 +1098,9 @@ def account(ctx, items, exe, pid_kinds=None, inject=None):
                 ctx.hist("spawn_error_release_order_observed", ">".join(t[5:] for t in inst.undo_order))
             if sp["action"] != "join" and inst.hwon is not None and inst.tid is not None:
                 ctx.hist("flag_cas_winner", "handle" if inst.hwon else "thread")
-            ctx.count((sp["panic"], sp["class"], sp["action"], inst.path, inst.mmap_fail, inst.clone_fail, getattr(inst, "dpanic", False)))
+            ctx.count((sp["panic"], sp.get("site", ""), sp["class"], sp["action"], inst.path, inst.mmap_fail, inst.clone_fail, getattr(inst, "dpanic", False)))
+            if sp["panic"] and inst.tid is not None:
+                ctx.hist("panic_sites", "%s, %s" % (SITES[sp.get("site", "")].split(" (")[0], "joined" if sp["action"] == "join" else "dropped"))
             if sp["class"] in BOMBS and inst.tid is not None and not sp["panic"]:
                 where = "forgotten by the probe" if inst.forgot else ("none" if not inst.dmarks else
                         ("thread" if inst.dmarks[0][2] == inst.tid else "handle side") + (":panics" if inst.dmarks[0][1] == "X" else ":returns"))
@@ -1109,7 +1166,7 @@ def run_faults(ctx, exe, cfg, nscripts, nthreads):
     items = []
     jobs = []
     for _ in range(nscripts):
-        specs = gen_batch(r, nthreads)
+        specs = one_per_print_lock([gen_batch(r, nthreads)])[0]
         for sp in specs:
             if sp["class"] == 5:
                 sp["class"] = 2       # keep the spawned threads from allocating: the mmap numbering stays that of the dry run
@@ -1151,7 +1208,7 @@ def stock_crosscheck(ctx, nproc, per):
         ctx.extra["stock_probe"] = "unavailable: " + err[-200:]
         return
     r = ctx.rng
-    jobs = [[gen_batch(r, 32) for _ in range(per)] for _ in range(nproc)]
+    jobs = [one_per_print_lock([gen_batch(r, 32) for _ in range(per)]) for _ in range(nproc)]
 
     def work(bs):
         script = script_of(bs)
@@ -1207,6 +1264,9 @@ ASSUMPTIONS = [
     "(Model/Thread `tDropPanic`; proved: nothing has been released at that point, so the panic handler's releases are the only ones). "
     "A destructor that panics on the HANDLE's thread (Drop for JoinHandle after a lost CAS, or the caller dropping what join returned) is the "
     "caller's panic, not the runtime's: it ends that thread (the process, on the main thread) before the shared block is freed; observed, not modelled",
+    "a thread that panics inside an argument of eprintln! / println! / dbg! dies holding that print lock (nothing unwinds; observation, outside "
+    "C05/C06): later prints to the stream from any thread would block, so the scenarios carry at most one such thread per lock per probe process "
+    "and the probe itself never prints through the library",
     "reads through dangling pointers are not observable as such: the allocator wrapper fills released blocks with 0xDD and quarantines them, so that "
     "such a read yields garbage that shows up as a wrong release / system-call argument or a crash; releases and futex calls on released blocks are observed directly",
 ]
@@ -1373,13 +1433,14 @@ def layout_tie(ctx, classes):
 
 def run(ctx, which="C05"):
     quick = ctx.tier == "quick"
-    ctx.rule = ("a case = one batch of 1..64 concurrently live threads, each with (closure returns | panics after d us, result class "
+    ctx.rule = ("a case = one batch of 1..64 concurrently live threads, each with (closure returns | panics after d us [plain panic! | inside an "
+                "eprintln! / println! / dbg! argument, i.e. holding the library's print lock | holding its own Mutex + RwLock guards], result class "
                 "zst/u8/u64/[u8;4096]/align64/Box | bool/char/Ordering/field-less enum/Option<u32>/Result<u8,u8>/struct(bool)+Drop [None is not all-zero] | "
                 "a value whose destructor panics (always / on a spawned thread only) [the panic handler starts inside the thread's epilogue], "
                 "handle joined | dropped after d' us | dropped at once), run on the real tiny-std threads under "
                 "strace -f, plus fault runs (every stack-mmap and every clone position of a script made to fail); "
                 "distinct_nontrivial = distinct (panic, class, handle action, wait path taken [fast load | EAGAIN | parked | handle won the CAS], "
-                "injected failure, destructor of the unread result panicked on the thread) combinations observed")
+                "injected failure, destructor of the unread result panicked on the thread, panic site) combinations observed")
     table, cfg = setup(ctx)
     ok = C.lean_prove(ctx, "TinyVerif.Props." + which, drivers=["drv_c05"])
     exes = {}
@@ -1414,6 +1475,10 @@ def run(ctx, which="C05"):
     ctx.extra["destructor_panics_on_thread_observed"] = sum(1 for it in items + sitems if not it.get("missing")
                                                             for i in it["insts"].values() if getattr(i, "dpanic", False))
     items += sitems
+    # closures that panic while their thread holds one of the library's own locks (print locks, its own Mutex / RwLock)
+    pitems = run_scenarios(ctx, exes["dyn"], cfg, 0, 0, 0, "panic-site-sweep", jobs=panic_site_sweep(ctx.rng, 1 if quick else 6))
+    ctx.extra["panic_site_sweep_batches"] = len(pitems)
+    items += pitems
     ctx.extra["scenario_s"] = round(time.time() - t, 1)
     nbad = account(ctx, items, exes["dyn"], pid_kinds=kinds)
     # fault runs
@@ -1457,7 +1522,8 @@ def batches_of_script(script):
             out.append(cur)
             cur = []
         elif w[0] == "t":
-            cur.append({"id": int(w[1]), "panic": w[2] == "panic", "d": int(w[3]), "class": int(w[4]), "action": w[5], "d2": int(w[6])})
+            cur.append({"id": int(w[1]), "panic": w[2].startswith("panic"), "site": w[2][6:] if w[2].startswith("panic_") else "",
+                        "d": int(w[3]), "class": int(w[4]), "action": w[5], "d2": int(w[6])})
     return out
 
 
